@@ -453,14 +453,13 @@ def run(ck):
             if not a or not a["setup_ok"] or len(a["results"]) != 2 or r is None:
                 continue
             on, ref = a["results"]
-            if on["class"] == "ok" and ref["class"] == "ok" and rows_key(on["rows"]) != rows_key(ref["rows"]):
-                opt_plan = on.get("optimized") or ""
-                if "(join right_outer" in opt_plan or "(join full_outer" in opt_plan:
-                    # the rule did not fire (e.g. its join-type guard): what is left is a nested-loop
-                    # right/full outer join, which the executor cannot run (recorded separately)
-                    ck.report("plan:nl-outer-join-left-in-optimized-plan", "the optimized plan of `%s` keeps a nested-loop right/full outer join, which the executor cannot run (todo!(); the statement silently returns no rows)" % c["sql"],
+            opt_plan = on.get("optimized") or ""
+            if ("(join right_outer" in opt_plan or "(join full_outer" in opt_plan) and ref["class"] == "ok":
+                if on["class"] == "err" and "operator panicked" in on.get("msg", ""):
+                    ck.report("plan:nl-outer-join-left-in-optimized-plan", "the optimized plan of `%s` keeps a nested-loop right/full outer join, which the executor cannot run (todo!(): the statement fails)" % c["sql"],
                               replay={"case": c, "on": on, "reference": ref})
                     continue
+            if on["class"] == "ok" and ref["class"] == "ok" and rows_key(on["rows"]) != rows_key(ref["rows"]):
                 ck.report(r["sig"], "`%s` (optimized; plan %s) returns %s, the equivalent `%s` run unoptimized returns %s" % (
                     c["sql"], on.get("optimized"), rows_key(on["rows"]), c["reference_sql"], rows_key(ref["rows"])),
                     replay={"case": c, "on": on, "reference": ref})
@@ -499,10 +498,11 @@ def run(ck):
 
             def has_nl_outer(plan):
                 return ("(join right_outer" in (plan or "")) or ("(join full_outer" in (plan or ""))
-            # nested-loop right/full outer joins are `todo!()` in the executor and the panic is
-            # swallowed (C15/C17): a plan containing one returns no rows instead of failing
+            # nested-loop right/full outer joins are `todo!()` in the executor: a plan containing one
+            # fails with `operator panicked: not yet implemented` (since fix 4225762; before, the
+            # panic was swallowed and the statement returned no rows)
             off_ok = off["class"] == "ok" and not has_nl_outer(off.get("bound"))
-            on_nl = on["class"] == "ok" and has_nl_outer(on.get("optimized"))
+            on_nl = has_nl_outer(on.get("optimized")) and on["class"] == "err" and "operator panicked" in on.get("msg", "")
             if not off_ok:
                 stats["off_not_runnable"] += 1
             # reference: the unoptimized answer; where the bound plan cannot run, the optimizer
@@ -525,7 +525,7 @@ def run(ck):
                       "requests": [{"id": "replay", "engine": eng, "setup": c["setup"], "queries": [{"sql": c["sql"], "opt": "off", "plans": True}, {"sql": c["sql"], "opt": "on", "plans": True}]}]}
             if on_nl:
                 stats["known_rule_diffs"] += 1
-                ck.report("plan:nl-outer-join-left-in-optimized-plan", "the optimized plan of `%s` keeps a nested-loop right/full outer join, which the executor cannot run (todo!(); the statement silently returns no rows)" % c["sql"], replay=replay)
+                ck.report("plan:nl-outer-join-left-in-optimized-plan", "the optimized plan of `%s` keeps a nested-loop right/full outer join, which the executor cannot run (todo!(): the statement fails)" % c["sql"], replay=replay)
                 continue
             # differs.  Is it explained by the rules of ONE recorded finding (the answer is the
             # reference's again once exactly those rules are left out)?
